@@ -1,10 +1,9 @@
 import Dalek.Proofs.AlgBoundsSound
-import Dalek.Model.Contracts
-import Dalek.Gen.AlgField
-import Dalek.Gen.AlgCurve
-import Dalek.Gen.AlgEdwards
-import Dalek.Gen.AlgMontgomery
-import Dalek.Gen.AlgRistretto
+import Dalek.Proofs.AlgBoundsInv
+import Dalek.Proofs.AlgBoundsOk51
+import Dalek.Proofs.AlgBoundsOk26a
+import Dalek.Proofs.AlgBoundsOk26b
+import Dalek.Proofs.AlgBoundsOk26c
 /-!
 # C11 — limb headroom is re-established along every call path of the formulas (property theorems, formula level)
 
@@ -16,13 +15,14 @@ in which every abstract field operation IS the verified kernel analysis (`Dalek.
 `mul a b` runs `Prog.norm` on the regenerated `mul` kernel with the interval vectors the operands actually have at
 that point of the formula.  No hand-written operation summaries, so the contracts of the kernels compose exactly.
 
-* **Type invariants** (`Invs`, `I51`, `I26`, `inv_*`): per-limb bound vectors for the coordinates of every point
-  type that is passed between formulas.
+* **Type invariants** (`Invs`, `I51`, `I26`, `inv_*`; DEFINED in the helper `Dalek/Proofs/AlgBoundsInv.lean`, restated
+  below): per-limb bound vectors for the coordinates of every point type that is passed between formulas.
 * **Per formula and backend** `<Mod>_<item>_safe{51,26} : (sig_<Mod>_<item> I).Safe B`: for ALL limb inputs inside
   the type invariants of the inputs, NO statement of the formula panics in the debug build (no overflow, no
   `debug_assert!`), all intermediate values and outputs equal those of the release build, and the outputs are
   inside the type invariants of the outputs (`Dalek.Model.AlgBounds.Safe`).  Each is the kernel evaluation
-  `<Mod>_<item>_ok{51,26}` (`decide +kernel`) + `check_sound` (which is `Prog.norm_sound` + `AProg.run_rel`).
+  `<Mod>_<item>_ok{51,26}` (`decide +kernel`; in the helpers `Dalek/Proofs/AlgBoundsOk{51,26a,26b,26c}.lean` so that
+  they compile in parallel) + `check_sound` (which is `Prog.norm_sound` + `AProg.run_rel`).
 * The invariants form a **post-fixed point**: the table `sigs` uses the SAME named vectors for the outputs of every
   producer and the inputs of every consumer of a type; external producers (decoded bytes, the shipped tables, the
   basepoint / torsion constants) are inside them (`from_bytes_*`, `tables_in_inv*`, `points_in_inv*`), the external
@@ -36,57 +36,22 @@ namespace Dalek.Props.C11.Formulas
 open Dalek.IR Dalek.Gen Dalek.Model.AlgBounds Dalek.Proofs.AlgBoundsSound
 open Dalek.Model.Contracts (ub rep l2625 l2625f bytes)
 
-/-! ## type invariants -/
+/-! ## type invariants (restated; definitions in `Dalek/Proofs/AlgBoundsInv.lean`) -/
 
-/-- the bound vectors from which all type invariants of one backend are built -/
-structure Invs where
-  /-- a reduced field element: the output range of `mul`, `square`, `sub`, `neg`, `reduce`, `from_bytes`, constants -/
-  fe : List Itv
-  /-- an unreduced sum of two reduced field elements (`Y+X` of the Niels forms) -/
-  sum : List Itv
-  /-- a coordinate of a `CompletedPoint` (sums / differences of up to three reduced elements) -/
-  comp : List Itv
-  /-- the weakest input the field-level functions (`invert`, `sqrt_ratio_i`, …) are proved safe for:
-  the documented headroom of the kernels -/
-  loose : List Itv
-
-/-- serial u64: reduced = limbs `< 2^52` (`reduced51` of C01); sums `< 2^53`; completed coordinates and the
-field-level functions: the full documented headroom `< 2^54` of `mul`/`square`/`sub`/`neg`/`as_bytes` -/
-def I51 : Invs where
-  fe := rep 5 (ub (2 ^ 52 - 1))
-  sum := rep 5 (ub (2 ^ 53 - 2))
-  comp := rep 5 (ub (2 ^ 54 - 1))
-  loose := rep 5 (ub (2 ^ 54 - 1))
-
-/-- serial u32: reduced = excess factor `< 1.004` (`b < 0.007`, `reduced26` of C01); sums `< 2.008`; completed
-coordinates and the field-level functions: the documented headroom `b < 1.75` (factor `3.36`) of the SECOND operand
-of `mul` and of `square` -/
-def I26 : Invs where
-  fe := l2625f 1004 1000
-  sum := l2625f 2008 1000
-  comp := l2625f 336 100
-  loose := l2625f 336 100
-
-/-- a `subtle::Choice` / `bool` -/
-def inv_choice : List Itv := choiceItv
-
-/-- `EdwardsPoint` / `RistrettoPoint` `(X, Y, Z, T)`: all coordinates reduced -/
-def EdwardsPoint (I : Invs) : List (List Itv) := [I.fe, I.fe, I.fe, I.fe]
-/-- `curve_models::ProjectivePoint` `(X, Y, Z)` -/
-def ProjectivePoint (I : Invs) : List (List Itv) := [I.fe, I.fe, I.fe]
-/-- `curve_models::CompletedPoint` `(X, Y, Z, T)`: unreduced sums and differences -/
-def CompletedPoint (I : Invs) : List (List Itv) := [I.comp, I.comp, I.comp, I.comp]
-/-- `ProjectiveNielsPoint` `(Y_plus_X, Y_minus_X, Z, T2d)`; `Y_plus_X` is an unreduced sum, and negation SWAPS the
-first two fields, so both carry the bound of the sum -/
-def ProjectiveNiels (I : Invs) : List (List Itv) := [I.sum, I.sum, I.fe, I.fe]
-/-- `AffineNielsPoint` `(y_plus_x, y_minus_x, xy2d)` (the entries of the precomputed tables) -/
-def AffineNiels (I : Invs) : List (List Itv) := [I.sum, I.sum, I.fe]
-/-- `montgomery::ProjectivePoint` `(U, W)` -/
-def MontgomeryProjective (I : Invs) : List (List Itv) := [I.fe, I.fe]
-/-- state of one Montgomery ladder step: `(x0.U, x0.W, x1.U, x1.W)` and the affine `u` of the difference -/
-def LadderStep (I : Invs) : List (List Itv) := [I.fe, I.fe, I.fe, I.fe, I.fe]
-/-- `BatchCompressState` `(e, f, g, h, eg, fh)` of `double_and_compress_batch`: `f`, `g` are unreduced -/
-def BatchState (I : Invs) : List (List Itv) := [I.fe, I.sum, I.sum, I.fe, I.fe, I.fe]
+/-- serial u64: reduced = limbs `< 2^52`; unreduced sum `< 2^53`; completed coordinates and inputs of the
+field-level functions: the full documented headroom `< 2^54` -/
+example : I51 = ⟨rep 5 (ub (2 ^ 52 - 1)), rep 5 (ub (2 ^ 53 - 2)), rep 5 (ub (2 ^ 54 - 1)), rep 5 (ub (2 ^ 54 - 1))⟩ := rfl
+/-- serial u32: reduced = excess factor `< 1.004` over `2^26 / 2^25`; unreduced sum `< 2.008`; completed coordinates
+and inputs of the field-level functions: `< 3.36` (`b < 1.75`) -/
+example : I26 = ⟨l2625f 1004 1000, l2625f 2008 1000, l2625f 336 100, l2625f 336 100⟩ := rfl
+example (I : Invs) : EdwardsPoint I = [I.fe, I.fe, I.fe, I.fe] := rfl
+example (I : Invs) : ProjectivePoint I = [I.fe, I.fe, I.fe] := rfl
+example (I : Invs) : CompletedPoint I = [I.comp, I.comp, I.comp, I.comp] := rfl
+example (I : Invs) : ProjectiveNiels I = [I.sum, I.sum, I.fe, I.fe] := rfl
+example (I : Invs) : AffineNiels I = [I.sum, I.sum, I.fe] := rfl
+example (I : Invs) : MontgomeryProjective I = [I.fe, I.fe] := rfl
+example (I : Invs) : LadderStep I = [I.fe, I.fe, I.fe, I.fe, I.fe] := rfl
+example (I : Invs) : BatchState I = [I.fe, I.sum, I.sum, I.fe, I.fe, I.fe] := rfl
 
 abbrev inv_fe51 := I51.fe
 abbrev inv_fe26 := I26.fe
@@ -107,225 +72,58 @@ abbrev inv_LadderStep26 := LadderStep I26
 abbrev inv_BatchState51 := BatchState I51
 abbrev inv_BatchState26 := BatchState I26
 
-/-! ## the typed formulas (one `Sig` per translated item) -/
-
-def sig_Curve_ProjectivePoint_identity (I : Invs) : Sig := ⟨"Curve.ProjectivePoint_identity", AlgCurve.ProjectivePoint_identity, [], ProjectivePoint I⟩
-def sig_Curve_ProjectiveNielsPoint_identity (I : Invs) : Sig := ⟨"Curve.ProjectiveNielsPoint_identity", AlgCurve.ProjectiveNielsPoint_identity, [], ProjectiveNiels I⟩
-def sig_Curve_AffineNielsPoint_identity (I : Invs) : Sig := ⟨"Curve.AffineNielsPoint_identity", AlgCurve.AffineNielsPoint_identity, [], AffineNiels I⟩
-def sig_Curve_ProjectivePoint_is_valid (I : Invs) : Sig := ⟨"Curve.ProjectivePoint_is_valid", AlgCurve.ProjectivePoint_is_valid, ProjectivePoint I, [inv_choice]⟩
-def sig_Curve_ProjectiveNielsPoint_conditional_select (I : Invs) : Sig := ⟨"Curve.ProjectiveNielsPoint_conditional_select", AlgCurve.ProjectiveNielsPoint_conditional_select, ProjectiveNiels I ++ ProjectiveNiels I ++ [inv_choice], ProjectiveNiels I⟩
-def sig_Curve_ProjectiveNielsPoint_conditional_assign (I : Invs) : Sig := ⟨"Curve.ProjectiveNielsPoint_conditional_assign", AlgCurve.ProjectiveNielsPoint_conditional_assign, ProjectiveNiels I ++ ProjectiveNiels I ++ [inv_choice], ProjectiveNiels I⟩
-def sig_Curve_AffineNielsPoint_conditional_select (I : Invs) : Sig := ⟨"Curve.AffineNielsPoint_conditional_select", AlgCurve.AffineNielsPoint_conditional_select, AffineNiels I ++ AffineNiels I ++ [inv_choice], AffineNiels I⟩
-def sig_Curve_AffineNielsPoint_conditional_assign (I : Invs) : Sig := ⟨"Curve.AffineNielsPoint_conditional_assign", AlgCurve.AffineNielsPoint_conditional_assign, AffineNiels I ++ AffineNiels I ++ [inv_choice], AffineNiels I⟩
-def sig_Curve_ProjectivePoint_as_extended (I : Invs) : Sig := ⟨"Curve.ProjectivePoint_as_extended", AlgCurve.ProjectivePoint_as_extended, ProjectivePoint I, EdwardsPoint I⟩
-def sig_Curve_CompletedPoint_as_projective (I : Invs) : Sig := ⟨"Curve.CompletedPoint_as_projective", AlgCurve.CompletedPoint_as_projective, CompletedPoint I, ProjectivePoint I⟩
-def sig_Curve_CompletedPoint_as_extended (I : Invs) : Sig := ⟨"Curve.CompletedPoint_as_extended", AlgCurve.CompletedPoint_as_extended, CompletedPoint I, EdwardsPoint I⟩
-def sig_Curve_ProjectivePoint_double (I : Invs) : Sig := ⟨"Curve.ProjectivePoint_double", AlgCurve.ProjectivePoint_double, ProjectivePoint I, CompletedPoint I⟩
-def sig_Curve_add_ProjectiveNielsPoint (I : Invs) : Sig := ⟨"Curve.add_ProjectiveNielsPoint", AlgCurve.add_ProjectiveNielsPoint, EdwardsPoint I ++ ProjectiveNiels I, CompletedPoint I⟩
-def sig_Curve_sub_ProjectiveNielsPoint (I : Invs) : Sig := ⟨"Curve.sub_ProjectiveNielsPoint", AlgCurve.sub_ProjectiveNielsPoint, EdwardsPoint I ++ ProjectiveNiels I, CompletedPoint I⟩
-def sig_Curve_add_AffineNielsPoint (I : Invs) : Sig := ⟨"Curve.add_AffineNielsPoint", AlgCurve.add_AffineNielsPoint, EdwardsPoint I ++ AffineNiels I, CompletedPoint I⟩
-def sig_Curve_sub_AffineNielsPoint (I : Invs) : Sig := ⟨"Curve.sub_AffineNielsPoint", AlgCurve.sub_AffineNielsPoint, EdwardsPoint I ++ AffineNiels I, CompletedPoint I⟩
-def sig_Curve_ProjectiveNielsPoint_neg (I : Invs) : Sig := ⟨"Curve.ProjectiveNielsPoint_neg", AlgCurve.ProjectiveNielsPoint_neg, ProjectiveNiels I, ProjectiveNiels I⟩
-def sig_Curve_AffineNielsPoint_neg (I : Invs) : Sig := ⟨"Curve.AffineNielsPoint_neg", AlgCurve.AffineNielsPoint_neg, AffineNiels I, AffineNiels I⟩
-def sig_Edwards_decompress_step_1 (I : Invs) : Sig := ⟨"Edwards.decompress_step_1", AlgEdwards.decompress_step_1, [I.fe], [inv_choice, I.fe, I.fe, I.fe]⟩
-def sig_Edwards_decompress_step_2 (I : Invs) : Sig := ⟨"Edwards.decompress_step_2", AlgEdwards.decompress_step_2, [I.fe, I.fe, I.fe, inv_choice], EdwardsPoint I⟩
-def sig_Edwards_compress (I : Invs) : Sig := ⟨"Edwards.compress", AlgEdwards.compress, EdwardsPoint I, [I.fe, inv_choice]⟩
-def sig_Edwards_to_montgomery (I : Invs) : Sig := ⟨"Edwards.to_montgomery", AlgEdwards.to_montgomery, EdwardsPoint I, [I.fe]⟩
-def sig_Edwards_as_projective_niels (I : Invs) : Sig := ⟨"Edwards.as_projective_niels", AlgEdwards.as_projective_niels, EdwardsPoint I, ProjectiveNiels I⟩
-def sig_Edwards_as_projective (I : Invs) : Sig := ⟨"Edwards.as_projective", AlgEdwards.as_projective, EdwardsPoint I, ProjectivePoint I⟩
-def sig_Edwards_as_affine_niels (I : Invs) : Sig := ⟨"Edwards.as_affine_niels", AlgEdwards.as_affine_niels, EdwardsPoint I, AffineNiels I⟩
-def sig_Edwards_identity (I : Invs) : Sig := ⟨"Edwards.identity", AlgEdwards.identity, [], EdwardsPoint I⟩
-def sig_Edwards_ct_eq (I : Invs) : Sig := ⟨"Edwards.ct_eq", AlgEdwards.ct_eq, EdwardsPoint I ++ EdwardsPoint I, [inv_choice]⟩
-def sig_Edwards_conditional_select (I : Invs) : Sig := ⟨"Edwards.conditional_select", AlgEdwards.conditional_select, EdwardsPoint I ++ EdwardsPoint I ++ [inv_choice], EdwardsPoint I⟩
-def sig_Edwards_neg (I : Invs) : Sig := ⟨"Edwards.neg", AlgEdwards.neg, EdwardsPoint I, EdwardsPoint I⟩
-def sig_Edwards_double (I : Invs) : Sig := ⟨"Edwards.double", AlgEdwards.double, EdwardsPoint I, EdwardsPoint I⟩
-def sig_Edwards_add (I : Invs) : Sig := ⟨"Edwards.add", AlgEdwards.add, EdwardsPoint I ++ EdwardsPoint I, EdwardsPoint I⟩
-def sig_Edwards_sub (I : Invs) : Sig := ⟨"Edwards.sub", AlgEdwards.sub, EdwardsPoint I ++ EdwardsPoint I, EdwardsPoint I⟩
-def sig_Edwards_is_valid (I : Invs) : Sig := ⟨"Edwards.is_valid", AlgEdwards.is_valid, EdwardsPoint I, [inv_choice]⟩
-def sig_Montgomery_differential_add_and_double (I : Invs) : Sig := ⟨"Montgomery.differential_add_and_double", AlgMontgomery.differential_add_and_double, LadderStep I, [I.fe, I.fe, I.fe, I.fe]⟩
-def sig_Montgomery_ProjectivePoint_identity (I : Invs) : Sig := ⟨"Montgomery.ProjectivePoint_identity", AlgMontgomery.ProjectivePoint_identity, [], MontgomeryProjective I⟩
-def sig_Montgomery_ProjectivePoint_conditional_select (I : Invs) : Sig := ⟨"Montgomery.ProjectivePoint_conditional_select", AlgMontgomery.ProjectivePoint_conditional_select, MontgomeryProjective I ++ MontgomeryProjective I ++ [inv_choice], MontgomeryProjective I⟩
-def sig_Montgomery_ProjectivePoint_as_affine (I : Invs) : Sig := ⟨"Montgomery.ProjectivePoint_as_affine", AlgMontgomery.ProjectivePoint_as_affine, MontgomeryProjective I, [I.fe]⟩
-def sig_Montgomery_to_edwards (I : Invs) : Sig := ⟨"Montgomery.to_edwards", AlgMontgomery.to_edwards, [I.fe], [inv_choice, I.fe]⟩
-def sig_Montgomery_elligator_encode (I : Invs) : Sig := ⟨"Montgomery.elligator_encode", AlgMontgomery.elligator_encode, [I.fe], [I.sum]⟩
-def sig_Montgomery_ct_eq (I : Invs) : Sig := ⟨"Montgomery.ct_eq", AlgMontgomery.ct_eq, [I.fe, I.fe], [inv_choice]⟩
-def sig_Ristretto_decompress_step_2 (I : Invs) : Sig := ⟨"Ristretto.decompress_step_2", AlgRistretto.decompress_step_2, [I.fe], [inv_choice, inv_choice, inv_choice] ++ EdwardsPoint I⟩
-def sig_Ristretto_compress (I : Invs) : Sig := ⟨"Ristretto.compress", AlgRistretto.compress, EdwardsPoint I, [I.fe]⟩
-def sig_Ristretto_elligator_ristretto_flavor (I : Invs) : Sig := ⟨"Ristretto.elligator_ristretto_flavor", AlgRistretto.elligator_ristretto_flavor, [I.fe], EdwardsPoint I⟩
-def sig_Ristretto_ct_eq (I : Invs) : Sig := ⟨"Ristretto.ct_eq", AlgRistretto.ct_eq, EdwardsPoint I ++ EdwardsPoint I, [inv_choice]⟩
-def sig_Ristretto_batch_state_from (I : Invs) : Sig := ⟨"Ristretto.batch_state_from", AlgRistretto.batch_state_from, EdwardsPoint I, BatchState I⟩
-def sig_Ristretto_batch_compress_closure (I : Invs) : Sig := ⟨"Ristretto.batch_compress_closure", AlgRistretto.batch_compress_closure, BatchState I ++ [I.fe], [I.fe]⟩
-def sig_Field_pow22501 (I : Invs) : Sig := ⟨"Field.pow22501", AlgField.pow22501, [I.loose], [I.fe, I.fe]⟩
-def sig_Field_pow_p58 (I : Invs) : Sig := ⟨"Field.pow_p58", AlgField.pow_p58, [I.loose], [I.fe]⟩
-def sig_Field_invert (I : Invs) : Sig := ⟨"Field.invert", AlgField.invert, [I.loose], [I.fe]⟩
-def sig_Field_sqrt_ratio_i (I : Invs) : Sig := ⟨"Field.sqrt_ratio_i", AlgField.sqrt_ratio_i, [I.loose, I.loose], [inv_choice, I.fe]⟩
-def sig_Field_invsqrt (I : Invs) : Sig := ⟨"Field.invsqrt", AlgField.invsqrt, [I.loose], [inv_choice, I.fe]⟩
-
-/-- all translated formulas with their type invariants -/
-def sigs (I : Invs) : List Sig := [
-  sig_Curve_ProjectivePoint_identity I,
-  sig_Curve_ProjectiveNielsPoint_identity I,
-  sig_Curve_AffineNielsPoint_identity I,
-  sig_Curve_ProjectivePoint_is_valid I,
-  sig_Curve_ProjectiveNielsPoint_conditional_select I,
-  sig_Curve_ProjectiveNielsPoint_conditional_assign I,
-  sig_Curve_AffineNielsPoint_conditional_select I,
-  sig_Curve_AffineNielsPoint_conditional_assign I,
-  sig_Curve_ProjectivePoint_as_extended I,
-  sig_Curve_CompletedPoint_as_projective I,
-  sig_Curve_CompletedPoint_as_extended I,
-  sig_Curve_ProjectivePoint_double I,
-  sig_Curve_add_ProjectiveNielsPoint I,
-  sig_Curve_sub_ProjectiveNielsPoint I,
-  sig_Curve_add_AffineNielsPoint I,
-  sig_Curve_sub_AffineNielsPoint I,
-  sig_Curve_ProjectiveNielsPoint_neg I,
-  sig_Curve_AffineNielsPoint_neg I,
-  sig_Edwards_decompress_step_1 I,
-  sig_Edwards_decompress_step_2 I,
-  sig_Edwards_compress I,
-  sig_Edwards_to_montgomery I,
-  sig_Edwards_as_projective_niels I,
-  sig_Edwards_as_projective I,
-  sig_Edwards_as_affine_niels I,
-  sig_Edwards_identity I,
-  sig_Edwards_ct_eq I,
-  sig_Edwards_conditional_select I,
-  sig_Edwards_neg I,
-  sig_Edwards_double I,
-  sig_Edwards_add I,
-  sig_Edwards_sub I,
-  sig_Edwards_is_valid I,
-  sig_Montgomery_differential_add_and_double I,
-  sig_Montgomery_ProjectivePoint_identity I,
-  sig_Montgomery_ProjectivePoint_conditional_select I,
-  sig_Montgomery_ProjectivePoint_as_affine I,
-  sig_Montgomery_to_edwards I,
-  sig_Montgomery_elligator_encode I,
-  sig_Montgomery_ct_eq I,
-  sig_Ristretto_decompress_step_2 I,
-  sig_Ristretto_compress I,
-  sig_Ristretto_elligator_ristretto_flavor I,
-  sig_Ristretto_ct_eq I,
-  sig_Ristretto_batch_state_from I,
-  sig_Ristretto_batch_compress_closure I,
-  sig_Field_pow22501 I,
-  sig_Field_pow_p58 I,
-  sig_Field_invert I,
-  sig_Field_sqrt_ratio_i I,
-  sig_Field_invsqrt I]
-
-/-- what the driver prints (serial u64): `(formula, check passed)` -/
-def report51 : List (String × Bool) := reportOf B51 (sigs I51)
-/-- what the driver prints (serial u32) -/
-def report26 : List (String × Bool) := reportOf B26 (sigs I26)
-/-- both backends, names prefixed -/
-def report : List (String × Bool) :=
-  report51.map (fun nb => ("u64." ++ nb.1, nb.2)) ++ report26.map (fun nb => ("u32." ++ nb.1, nb.2))
-
 /-! ## serial u64 backend: every formula is safe from / re-establishes the type invariants -/
 
-theorem Curve_ProjectivePoint_identity_ok51 : (sig_Curve_ProjectivePoint_identity I51).ok B51 = true := by decide +kernel
 theorem Curve_ProjectivePoint_identity_safe51 : (sig_Curve_ProjectivePoint_identity I51).Safe B51 := Sig.safe_of_ok Curve_ProjectivePoint_identity_ok51
-theorem Curve_ProjectiveNielsPoint_identity_ok51 : (sig_Curve_ProjectiveNielsPoint_identity I51).ok B51 = true := by decide +kernel
 theorem Curve_ProjectiveNielsPoint_identity_safe51 : (sig_Curve_ProjectiveNielsPoint_identity I51).Safe B51 := Sig.safe_of_ok Curve_ProjectiveNielsPoint_identity_ok51
-theorem Curve_AffineNielsPoint_identity_ok51 : (sig_Curve_AffineNielsPoint_identity I51).ok B51 = true := by decide +kernel
 theorem Curve_AffineNielsPoint_identity_safe51 : (sig_Curve_AffineNielsPoint_identity I51).Safe B51 := Sig.safe_of_ok Curve_AffineNielsPoint_identity_ok51
-theorem Curve_ProjectivePoint_is_valid_ok51 : (sig_Curve_ProjectivePoint_is_valid I51).ok B51 = true := by decide +kernel
 theorem Curve_ProjectivePoint_is_valid_safe51 : (sig_Curve_ProjectivePoint_is_valid I51).Safe B51 := Sig.safe_of_ok Curve_ProjectivePoint_is_valid_ok51
-theorem Curve_ProjectiveNielsPoint_conditional_select_ok51 : (sig_Curve_ProjectiveNielsPoint_conditional_select I51).ok B51 = true := by decide +kernel
 theorem Curve_ProjectiveNielsPoint_conditional_select_safe51 : (sig_Curve_ProjectiveNielsPoint_conditional_select I51).Safe B51 := Sig.safe_of_ok Curve_ProjectiveNielsPoint_conditional_select_ok51
-theorem Curve_ProjectiveNielsPoint_conditional_assign_ok51 : (sig_Curve_ProjectiveNielsPoint_conditional_assign I51).ok B51 = true := by decide +kernel
 theorem Curve_ProjectiveNielsPoint_conditional_assign_safe51 : (sig_Curve_ProjectiveNielsPoint_conditional_assign I51).Safe B51 := Sig.safe_of_ok Curve_ProjectiveNielsPoint_conditional_assign_ok51
-theorem Curve_AffineNielsPoint_conditional_select_ok51 : (sig_Curve_AffineNielsPoint_conditional_select I51).ok B51 = true := by decide +kernel
 theorem Curve_AffineNielsPoint_conditional_select_safe51 : (sig_Curve_AffineNielsPoint_conditional_select I51).Safe B51 := Sig.safe_of_ok Curve_AffineNielsPoint_conditional_select_ok51
-theorem Curve_AffineNielsPoint_conditional_assign_ok51 : (sig_Curve_AffineNielsPoint_conditional_assign I51).ok B51 = true := by decide +kernel
 theorem Curve_AffineNielsPoint_conditional_assign_safe51 : (sig_Curve_AffineNielsPoint_conditional_assign I51).Safe B51 := Sig.safe_of_ok Curve_AffineNielsPoint_conditional_assign_ok51
-theorem Curve_ProjectivePoint_as_extended_ok51 : (sig_Curve_ProjectivePoint_as_extended I51).ok B51 = true := by decide +kernel
 theorem Curve_ProjectivePoint_as_extended_safe51 : (sig_Curve_ProjectivePoint_as_extended I51).Safe B51 := Sig.safe_of_ok Curve_ProjectivePoint_as_extended_ok51
-theorem Curve_CompletedPoint_as_projective_ok51 : (sig_Curve_CompletedPoint_as_projective I51).ok B51 = true := by decide +kernel
 theorem Curve_CompletedPoint_as_projective_safe51 : (sig_Curve_CompletedPoint_as_projective I51).Safe B51 := Sig.safe_of_ok Curve_CompletedPoint_as_projective_ok51
-theorem Curve_CompletedPoint_as_extended_ok51 : (sig_Curve_CompletedPoint_as_extended I51).ok B51 = true := by decide +kernel
 theorem Curve_CompletedPoint_as_extended_safe51 : (sig_Curve_CompletedPoint_as_extended I51).Safe B51 := Sig.safe_of_ok Curve_CompletedPoint_as_extended_ok51
-theorem Curve_ProjectivePoint_double_ok51 : (sig_Curve_ProjectivePoint_double I51).ok B51 = true := by decide +kernel
 theorem Curve_ProjectivePoint_double_safe51 : (sig_Curve_ProjectivePoint_double I51).Safe B51 := Sig.safe_of_ok Curve_ProjectivePoint_double_ok51
-theorem Curve_add_ProjectiveNielsPoint_ok51 : (sig_Curve_add_ProjectiveNielsPoint I51).ok B51 = true := by decide +kernel
 theorem Curve_add_ProjectiveNielsPoint_safe51 : (sig_Curve_add_ProjectiveNielsPoint I51).Safe B51 := Sig.safe_of_ok Curve_add_ProjectiveNielsPoint_ok51
-theorem Curve_sub_ProjectiveNielsPoint_ok51 : (sig_Curve_sub_ProjectiveNielsPoint I51).ok B51 = true := by decide +kernel
 theorem Curve_sub_ProjectiveNielsPoint_safe51 : (sig_Curve_sub_ProjectiveNielsPoint I51).Safe B51 := Sig.safe_of_ok Curve_sub_ProjectiveNielsPoint_ok51
-theorem Curve_add_AffineNielsPoint_ok51 : (sig_Curve_add_AffineNielsPoint I51).ok B51 = true := by decide +kernel
 theorem Curve_add_AffineNielsPoint_safe51 : (sig_Curve_add_AffineNielsPoint I51).Safe B51 := Sig.safe_of_ok Curve_add_AffineNielsPoint_ok51
-theorem Curve_sub_AffineNielsPoint_ok51 : (sig_Curve_sub_AffineNielsPoint I51).ok B51 = true := by decide +kernel
 theorem Curve_sub_AffineNielsPoint_safe51 : (sig_Curve_sub_AffineNielsPoint I51).Safe B51 := Sig.safe_of_ok Curve_sub_AffineNielsPoint_ok51
-theorem Curve_ProjectiveNielsPoint_neg_ok51 : (sig_Curve_ProjectiveNielsPoint_neg I51).ok B51 = true := by decide +kernel
 theorem Curve_ProjectiveNielsPoint_neg_safe51 : (sig_Curve_ProjectiveNielsPoint_neg I51).Safe B51 := Sig.safe_of_ok Curve_ProjectiveNielsPoint_neg_ok51
-theorem Curve_AffineNielsPoint_neg_ok51 : (sig_Curve_AffineNielsPoint_neg I51).ok B51 = true := by decide +kernel
 theorem Curve_AffineNielsPoint_neg_safe51 : (sig_Curve_AffineNielsPoint_neg I51).Safe B51 := Sig.safe_of_ok Curve_AffineNielsPoint_neg_ok51
-theorem Edwards_decompress_step_1_ok51 : (sig_Edwards_decompress_step_1 I51).ok B51 = true := by decide +kernel
 theorem Edwards_decompress_step_1_safe51 : (sig_Edwards_decompress_step_1 I51).Safe B51 := Sig.safe_of_ok Edwards_decompress_step_1_ok51
-theorem Edwards_decompress_step_2_ok51 : (sig_Edwards_decompress_step_2 I51).ok B51 = true := by decide +kernel
 theorem Edwards_decompress_step_2_safe51 : (sig_Edwards_decompress_step_2 I51).Safe B51 := Sig.safe_of_ok Edwards_decompress_step_2_ok51
-theorem Edwards_compress_ok51 : (sig_Edwards_compress I51).ok B51 = true := by decide +kernel
 theorem Edwards_compress_safe51 : (sig_Edwards_compress I51).Safe B51 := Sig.safe_of_ok Edwards_compress_ok51
-theorem Edwards_to_montgomery_ok51 : (sig_Edwards_to_montgomery I51).ok B51 = true := by decide +kernel
 theorem Edwards_to_montgomery_safe51 : (sig_Edwards_to_montgomery I51).Safe B51 := Sig.safe_of_ok Edwards_to_montgomery_ok51
-theorem Edwards_as_projective_niels_ok51 : (sig_Edwards_as_projective_niels I51).ok B51 = true := by decide +kernel
 theorem Edwards_as_projective_niels_safe51 : (sig_Edwards_as_projective_niels I51).Safe B51 := Sig.safe_of_ok Edwards_as_projective_niels_ok51
-theorem Edwards_as_projective_ok51 : (sig_Edwards_as_projective I51).ok B51 = true := by decide +kernel
 theorem Edwards_as_projective_safe51 : (sig_Edwards_as_projective I51).Safe B51 := Sig.safe_of_ok Edwards_as_projective_ok51
-theorem Edwards_as_affine_niels_ok51 : (sig_Edwards_as_affine_niels I51).ok B51 = true := by decide +kernel
 theorem Edwards_as_affine_niels_safe51 : (sig_Edwards_as_affine_niels I51).Safe B51 := Sig.safe_of_ok Edwards_as_affine_niels_ok51
-theorem Edwards_identity_ok51 : (sig_Edwards_identity I51).ok B51 = true := by decide +kernel
 theorem Edwards_identity_safe51 : (sig_Edwards_identity I51).Safe B51 := Sig.safe_of_ok Edwards_identity_ok51
-theorem Edwards_ct_eq_ok51 : (sig_Edwards_ct_eq I51).ok B51 = true := by decide +kernel
 theorem Edwards_ct_eq_safe51 : (sig_Edwards_ct_eq I51).Safe B51 := Sig.safe_of_ok Edwards_ct_eq_ok51
-theorem Edwards_conditional_select_ok51 : (sig_Edwards_conditional_select I51).ok B51 = true := by decide +kernel
 theorem Edwards_conditional_select_safe51 : (sig_Edwards_conditional_select I51).Safe B51 := Sig.safe_of_ok Edwards_conditional_select_ok51
-theorem Edwards_neg_ok51 : (sig_Edwards_neg I51).ok B51 = true := by decide +kernel
 theorem Edwards_neg_safe51 : (sig_Edwards_neg I51).Safe B51 := Sig.safe_of_ok Edwards_neg_ok51
-theorem Edwards_double_ok51 : (sig_Edwards_double I51).ok B51 = true := by decide +kernel
 theorem Edwards_double_safe51 : (sig_Edwards_double I51).Safe B51 := Sig.safe_of_ok Edwards_double_ok51
-theorem Edwards_add_ok51 : (sig_Edwards_add I51).ok B51 = true := by decide +kernel
 theorem Edwards_add_safe51 : (sig_Edwards_add I51).Safe B51 := Sig.safe_of_ok Edwards_add_ok51
-theorem Edwards_sub_ok51 : (sig_Edwards_sub I51).ok B51 = true := by decide +kernel
 theorem Edwards_sub_safe51 : (sig_Edwards_sub I51).Safe B51 := Sig.safe_of_ok Edwards_sub_ok51
-theorem Edwards_is_valid_ok51 : (sig_Edwards_is_valid I51).ok B51 = true := by decide +kernel
 theorem Edwards_is_valid_safe51 : (sig_Edwards_is_valid I51).Safe B51 := Sig.safe_of_ok Edwards_is_valid_ok51
-theorem Montgomery_differential_add_and_double_ok51 : (sig_Montgomery_differential_add_and_double I51).ok B51 = true := by decide +kernel
 theorem Montgomery_differential_add_and_double_safe51 : (sig_Montgomery_differential_add_and_double I51).Safe B51 := Sig.safe_of_ok Montgomery_differential_add_and_double_ok51
-theorem Montgomery_ProjectivePoint_identity_ok51 : (sig_Montgomery_ProjectivePoint_identity I51).ok B51 = true := by decide +kernel
 theorem Montgomery_ProjectivePoint_identity_safe51 : (sig_Montgomery_ProjectivePoint_identity I51).Safe B51 := Sig.safe_of_ok Montgomery_ProjectivePoint_identity_ok51
-theorem Montgomery_ProjectivePoint_conditional_select_ok51 : (sig_Montgomery_ProjectivePoint_conditional_select I51).ok B51 = true := by decide +kernel
 theorem Montgomery_ProjectivePoint_conditional_select_safe51 : (sig_Montgomery_ProjectivePoint_conditional_select I51).Safe B51 := Sig.safe_of_ok Montgomery_ProjectivePoint_conditional_select_ok51
-theorem Montgomery_ProjectivePoint_as_affine_ok51 : (sig_Montgomery_ProjectivePoint_as_affine I51).ok B51 = true := by decide +kernel
 theorem Montgomery_ProjectivePoint_as_affine_safe51 : (sig_Montgomery_ProjectivePoint_as_affine I51).Safe B51 := Sig.safe_of_ok Montgomery_ProjectivePoint_as_affine_ok51
-theorem Montgomery_to_edwards_ok51 : (sig_Montgomery_to_edwards I51).ok B51 = true := by decide +kernel
 theorem Montgomery_to_edwards_safe51 : (sig_Montgomery_to_edwards I51).Safe B51 := Sig.safe_of_ok Montgomery_to_edwards_ok51
-theorem Montgomery_elligator_encode_ok51 : (sig_Montgomery_elligator_encode I51).ok B51 = true := by decide +kernel
 theorem Montgomery_elligator_encode_safe51 : (sig_Montgomery_elligator_encode I51).Safe B51 := Sig.safe_of_ok Montgomery_elligator_encode_ok51
-theorem Montgomery_ct_eq_ok51 : (sig_Montgomery_ct_eq I51).ok B51 = true := by decide +kernel
 theorem Montgomery_ct_eq_safe51 : (sig_Montgomery_ct_eq I51).Safe B51 := Sig.safe_of_ok Montgomery_ct_eq_ok51
-theorem Ristretto_decompress_step_2_ok51 : (sig_Ristretto_decompress_step_2 I51).ok B51 = true := by decide +kernel
 theorem Ristretto_decompress_step_2_safe51 : (sig_Ristretto_decompress_step_2 I51).Safe B51 := Sig.safe_of_ok Ristretto_decompress_step_2_ok51
-theorem Ristretto_compress_ok51 : (sig_Ristretto_compress I51).ok B51 = true := by decide +kernel
 theorem Ristretto_compress_safe51 : (sig_Ristretto_compress I51).Safe B51 := Sig.safe_of_ok Ristretto_compress_ok51
-theorem Ristretto_elligator_ristretto_flavor_ok51 : (sig_Ristretto_elligator_ristretto_flavor I51).ok B51 = true := by decide +kernel
 theorem Ristretto_elligator_ristretto_flavor_safe51 : (sig_Ristretto_elligator_ristretto_flavor I51).Safe B51 := Sig.safe_of_ok Ristretto_elligator_ristretto_flavor_ok51
-theorem Ristretto_ct_eq_ok51 : (sig_Ristretto_ct_eq I51).ok B51 = true := by decide +kernel
 theorem Ristretto_ct_eq_safe51 : (sig_Ristretto_ct_eq I51).Safe B51 := Sig.safe_of_ok Ristretto_ct_eq_ok51
-theorem Ristretto_batch_state_from_ok51 : (sig_Ristretto_batch_state_from I51).ok B51 = true := by decide +kernel
 theorem Ristretto_batch_state_from_safe51 : (sig_Ristretto_batch_state_from I51).Safe B51 := Sig.safe_of_ok Ristretto_batch_state_from_ok51
-theorem Ristretto_batch_compress_closure_ok51 : (sig_Ristretto_batch_compress_closure I51).ok B51 = true := by decide +kernel
 theorem Ristretto_batch_compress_closure_safe51 : (sig_Ristretto_batch_compress_closure I51).Safe B51 := Sig.safe_of_ok Ristretto_batch_compress_closure_ok51
-theorem Field_pow22501_ok51 : (sig_Field_pow22501 I51).ok B51 = true := by decide +kernel
 theorem Field_pow22501_safe51 : (sig_Field_pow22501 I51).Safe B51 := Sig.safe_of_ok Field_pow22501_ok51
-theorem Field_pow_p58_ok51 : (sig_Field_pow_p58 I51).ok B51 = true := by decide +kernel
 theorem Field_pow_p58_safe51 : (sig_Field_pow_p58 I51).Safe B51 := Sig.safe_of_ok Field_pow_p58_ok51
-theorem Field_invert_ok51 : (sig_Field_invert I51).ok B51 = true := by decide +kernel
 theorem Field_invert_safe51 : (sig_Field_invert I51).Safe B51 := Sig.safe_of_ok Field_invert_ok51
-theorem Field_sqrt_ratio_i_ok51 : (sig_Field_sqrt_ratio_i I51).ok B51 = true := by decide +kernel
 theorem Field_sqrt_ratio_i_safe51 : (sig_Field_sqrt_ratio_i I51).Safe B51 := Sig.safe_of_ok Field_sqrt_ratio_i_ok51
-theorem Field_invsqrt_ok51 : (sig_Field_invsqrt I51).ok B51 = true := by decide +kernel
 theorem Field_invsqrt_safe51 : (sig_Field_invsqrt I51).Safe B51 := Sig.safe_of_ok Field_invsqrt_ok51
 
 /-- every formula of the table is safe (u64 backend) -/
@@ -385,8 +183,9 @@ theorem all_safe51 : ∀ s ∈ sigs I51, s.Safe B51 := by
   · exact Field_sqrt_ratio_i_safe51
   · exact Field_invsqrt_safe51
 
+/-- every line of the driver's report is `true` -/
 theorem report51_all_ok : (report51).all (fun nb => nb.2) = true := by
-  simp only [report51, reportOf, sigs, List.map_cons, List.map_nil, List.all_cons, List.all_nil, Bool.and_true,
+  simp only [report51, reportOf, sigs, List.map_cons, List.map_nil, List.all_cons, List.all_nil,
     Curve_ProjectivePoint_identity_ok51,
     Curve_ProjectiveNielsPoint_identity_ok51,
     Curve_AffineNielsPoint_identity_ok51,
@@ -441,107 +240,56 @@ theorem report51_all_ok : (report51).all (fun nb => nb.2) = true := by
 
 /-! ## serial u32 backend: every formula is safe from / re-establishes the type invariants -/
 
-theorem Curve_ProjectivePoint_identity_ok26 : (sig_Curve_ProjectivePoint_identity I26).ok B26 = true := by decide +kernel
 theorem Curve_ProjectivePoint_identity_safe26 : (sig_Curve_ProjectivePoint_identity I26).Safe B26 := Sig.safe_of_ok Curve_ProjectivePoint_identity_ok26
-theorem Curve_ProjectiveNielsPoint_identity_ok26 : (sig_Curve_ProjectiveNielsPoint_identity I26).ok B26 = true := by decide +kernel
 theorem Curve_ProjectiveNielsPoint_identity_safe26 : (sig_Curve_ProjectiveNielsPoint_identity I26).Safe B26 := Sig.safe_of_ok Curve_ProjectiveNielsPoint_identity_ok26
-theorem Curve_AffineNielsPoint_identity_ok26 : (sig_Curve_AffineNielsPoint_identity I26).ok B26 = true := by decide +kernel
 theorem Curve_AffineNielsPoint_identity_safe26 : (sig_Curve_AffineNielsPoint_identity I26).Safe B26 := Sig.safe_of_ok Curve_AffineNielsPoint_identity_ok26
-theorem Curve_ProjectivePoint_is_valid_ok26 : (sig_Curve_ProjectivePoint_is_valid I26).ok B26 = true := by decide +kernel
 theorem Curve_ProjectivePoint_is_valid_safe26 : (sig_Curve_ProjectivePoint_is_valid I26).Safe B26 := Sig.safe_of_ok Curve_ProjectivePoint_is_valid_ok26
-theorem Curve_ProjectiveNielsPoint_conditional_select_ok26 : (sig_Curve_ProjectiveNielsPoint_conditional_select I26).ok B26 = true := by decide +kernel
 theorem Curve_ProjectiveNielsPoint_conditional_select_safe26 : (sig_Curve_ProjectiveNielsPoint_conditional_select I26).Safe B26 := Sig.safe_of_ok Curve_ProjectiveNielsPoint_conditional_select_ok26
-theorem Curve_ProjectiveNielsPoint_conditional_assign_ok26 : (sig_Curve_ProjectiveNielsPoint_conditional_assign I26).ok B26 = true := by decide +kernel
 theorem Curve_ProjectiveNielsPoint_conditional_assign_safe26 : (sig_Curve_ProjectiveNielsPoint_conditional_assign I26).Safe B26 := Sig.safe_of_ok Curve_ProjectiveNielsPoint_conditional_assign_ok26
-theorem Curve_AffineNielsPoint_conditional_select_ok26 : (sig_Curve_AffineNielsPoint_conditional_select I26).ok B26 = true := by decide +kernel
 theorem Curve_AffineNielsPoint_conditional_select_safe26 : (sig_Curve_AffineNielsPoint_conditional_select I26).Safe B26 := Sig.safe_of_ok Curve_AffineNielsPoint_conditional_select_ok26
-theorem Curve_AffineNielsPoint_conditional_assign_ok26 : (sig_Curve_AffineNielsPoint_conditional_assign I26).ok B26 = true := by decide +kernel
 theorem Curve_AffineNielsPoint_conditional_assign_safe26 : (sig_Curve_AffineNielsPoint_conditional_assign I26).Safe B26 := Sig.safe_of_ok Curve_AffineNielsPoint_conditional_assign_ok26
-theorem Curve_ProjectivePoint_as_extended_ok26 : (sig_Curve_ProjectivePoint_as_extended I26).ok B26 = true := by decide +kernel
 theorem Curve_ProjectivePoint_as_extended_safe26 : (sig_Curve_ProjectivePoint_as_extended I26).Safe B26 := Sig.safe_of_ok Curve_ProjectivePoint_as_extended_ok26
-theorem Curve_CompletedPoint_as_projective_ok26 : (sig_Curve_CompletedPoint_as_projective I26).ok B26 = true := by decide +kernel
 theorem Curve_CompletedPoint_as_projective_safe26 : (sig_Curve_CompletedPoint_as_projective I26).Safe B26 := Sig.safe_of_ok Curve_CompletedPoint_as_projective_ok26
-theorem Curve_CompletedPoint_as_extended_ok26 : (sig_Curve_CompletedPoint_as_extended I26).ok B26 = true := by decide +kernel
 theorem Curve_CompletedPoint_as_extended_safe26 : (sig_Curve_CompletedPoint_as_extended I26).Safe B26 := Sig.safe_of_ok Curve_CompletedPoint_as_extended_ok26
-theorem Curve_ProjectivePoint_double_ok26 : (sig_Curve_ProjectivePoint_double I26).ok B26 = true := by decide +kernel
 theorem Curve_ProjectivePoint_double_safe26 : (sig_Curve_ProjectivePoint_double I26).Safe B26 := Sig.safe_of_ok Curve_ProjectivePoint_double_ok26
-theorem Curve_add_ProjectiveNielsPoint_ok26 : (sig_Curve_add_ProjectiveNielsPoint I26).ok B26 = true := by decide +kernel
 theorem Curve_add_ProjectiveNielsPoint_safe26 : (sig_Curve_add_ProjectiveNielsPoint I26).Safe B26 := Sig.safe_of_ok Curve_add_ProjectiveNielsPoint_ok26
-theorem Curve_sub_ProjectiveNielsPoint_ok26 : (sig_Curve_sub_ProjectiveNielsPoint I26).ok B26 = true := by decide +kernel
 theorem Curve_sub_ProjectiveNielsPoint_safe26 : (sig_Curve_sub_ProjectiveNielsPoint I26).Safe B26 := Sig.safe_of_ok Curve_sub_ProjectiveNielsPoint_ok26
-theorem Curve_add_AffineNielsPoint_ok26 : (sig_Curve_add_AffineNielsPoint I26).ok B26 = true := by decide +kernel
 theorem Curve_add_AffineNielsPoint_safe26 : (sig_Curve_add_AffineNielsPoint I26).Safe B26 := Sig.safe_of_ok Curve_add_AffineNielsPoint_ok26
-theorem Curve_sub_AffineNielsPoint_ok26 : (sig_Curve_sub_AffineNielsPoint I26).ok B26 = true := by decide +kernel
 theorem Curve_sub_AffineNielsPoint_safe26 : (sig_Curve_sub_AffineNielsPoint I26).Safe B26 := Sig.safe_of_ok Curve_sub_AffineNielsPoint_ok26
-theorem Curve_ProjectiveNielsPoint_neg_ok26 : (sig_Curve_ProjectiveNielsPoint_neg I26).ok B26 = true := by decide +kernel
 theorem Curve_ProjectiveNielsPoint_neg_safe26 : (sig_Curve_ProjectiveNielsPoint_neg I26).Safe B26 := Sig.safe_of_ok Curve_ProjectiveNielsPoint_neg_ok26
-theorem Curve_AffineNielsPoint_neg_ok26 : (sig_Curve_AffineNielsPoint_neg I26).ok B26 = true := by decide +kernel
 theorem Curve_AffineNielsPoint_neg_safe26 : (sig_Curve_AffineNielsPoint_neg I26).Safe B26 := Sig.safe_of_ok Curve_AffineNielsPoint_neg_ok26
-theorem Edwards_decompress_step_1_ok26 : (sig_Edwards_decompress_step_1 I26).ok B26 = true := by decide +kernel
 theorem Edwards_decompress_step_1_safe26 : (sig_Edwards_decompress_step_1 I26).Safe B26 := Sig.safe_of_ok Edwards_decompress_step_1_ok26
-theorem Edwards_decompress_step_2_ok26 : (sig_Edwards_decompress_step_2 I26).ok B26 = true := by decide +kernel
 theorem Edwards_decompress_step_2_safe26 : (sig_Edwards_decompress_step_2 I26).Safe B26 := Sig.safe_of_ok Edwards_decompress_step_2_ok26
-theorem Edwards_compress_ok26 : (sig_Edwards_compress I26).ok B26 = true := by decide +kernel
 theorem Edwards_compress_safe26 : (sig_Edwards_compress I26).Safe B26 := Sig.safe_of_ok Edwards_compress_ok26
-theorem Edwards_to_montgomery_ok26 : (sig_Edwards_to_montgomery I26).ok B26 = true := by decide +kernel
 theorem Edwards_to_montgomery_safe26 : (sig_Edwards_to_montgomery I26).Safe B26 := Sig.safe_of_ok Edwards_to_montgomery_ok26
-theorem Edwards_as_projective_niels_ok26 : (sig_Edwards_as_projective_niels I26).ok B26 = true := by decide +kernel
 theorem Edwards_as_projective_niels_safe26 : (sig_Edwards_as_projective_niels I26).Safe B26 := Sig.safe_of_ok Edwards_as_projective_niels_ok26
-theorem Edwards_as_projective_ok26 : (sig_Edwards_as_projective I26).ok B26 = true := by decide +kernel
 theorem Edwards_as_projective_safe26 : (sig_Edwards_as_projective I26).Safe B26 := Sig.safe_of_ok Edwards_as_projective_ok26
-theorem Edwards_as_affine_niels_ok26 : (sig_Edwards_as_affine_niels I26).ok B26 = true := by decide +kernel
 theorem Edwards_as_affine_niels_safe26 : (sig_Edwards_as_affine_niels I26).Safe B26 := Sig.safe_of_ok Edwards_as_affine_niels_ok26
-theorem Edwards_identity_ok26 : (sig_Edwards_identity I26).ok B26 = true := by decide +kernel
 theorem Edwards_identity_safe26 : (sig_Edwards_identity I26).Safe B26 := Sig.safe_of_ok Edwards_identity_ok26
-theorem Edwards_ct_eq_ok26 : (sig_Edwards_ct_eq I26).ok B26 = true := by decide +kernel
 theorem Edwards_ct_eq_safe26 : (sig_Edwards_ct_eq I26).Safe B26 := Sig.safe_of_ok Edwards_ct_eq_ok26
-theorem Edwards_conditional_select_ok26 : (sig_Edwards_conditional_select I26).ok B26 = true := by decide +kernel
 theorem Edwards_conditional_select_safe26 : (sig_Edwards_conditional_select I26).Safe B26 := Sig.safe_of_ok Edwards_conditional_select_ok26
-theorem Edwards_neg_ok26 : (sig_Edwards_neg I26).ok B26 = true := by decide +kernel
 theorem Edwards_neg_safe26 : (sig_Edwards_neg I26).Safe B26 := Sig.safe_of_ok Edwards_neg_ok26
-theorem Edwards_double_ok26 : (sig_Edwards_double I26).ok B26 = true := by decide +kernel
 theorem Edwards_double_safe26 : (sig_Edwards_double I26).Safe B26 := Sig.safe_of_ok Edwards_double_ok26
-theorem Edwards_add_ok26 : (sig_Edwards_add I26).ok B26 = true := by decide +kernel
 theorem Edwards_add_safe26 : (sig_Edwards_add I26).Safe B26 := Sig.safe_of_ok Edwards_add_ok26
-theorem Edwards_sub_ok26 : (sig_Edwards_sub I26).ok B26 = true := by decide +kernel
 theorem Edwards_sub_safe26 : (sig_Edwards_sub I26).Safe B26 := Sig.safe_of_ok Edwards_sub_ok26
-theorem Edwards_is_valid_ok26 : (sig_Edwards_is_valid I26).ok B26 = true := by decide +kernel
 theorem Edwards_is_valid_safe26 : (sig_Edwards_is_valid I26).Safe B26 := Sig.safe_of_ok Edwards_is_valid_ok26
-theorem Montgomery_differential_add_and_double_ok26 : (sig_Montgomery_differential_add_and_double I26).ok B26 = true := by decide +kernel
 theorem Montgomery_differential_add_and_double_safe26 : (sig_Montgomery_differential_add_and_double I26).Safe B26 := Sig.safe_of_ok Montgomery_differential_add_and_double_ok26
-theorem Montgomery_ProjectivePoint_identity_ok26 : (sig_Montgomery_ProjectivePoint_identity I26).ok B26 = true := by decide +kernel
 theorem Montgomery_ProjectivePoint_identity_safe26 : (sig_Montgomery_ProjectivePoint_identity I26).Safe B26 := Sig.safe_of_ok Montgomery_ProjectivePoint_identity_ok26
-theorem Montgomery_ProjectivePoint_conditional_select_ok26 : (sig_Montgomery_ProjectivePoint_conditional_select I26).ok B26 = true := by decide +kernel
 theorem Montgomery_ProjectivePoint_conditional_select_safe26 : (sig_Montgomery_ProjectivePoint_conditional_select I26).Safe B26 := Sig.safe_of_ok Montgomery_ProjectivePoint_conditional_select_ok26
-theorem Montgomery_ProjectivePoint_as_affine_ok26 : (sig_Montgomery_ProjectivePoint_as_affine I26).ok B26 = true := by decide +kernel
 theorem Montgomery_ProjectivePoint_as_affine_safe26 : (sig_Montgomery_ProjectivePoint_as_affine I26).Safe B26 := Sig.safe_of_ok Montgomery_ProjectivePoint_as_affine_ok26
-theorem Montgomery_to_edwards_ok26 : (sig_Montgomery_to_edwards I26).ok B26 = true := by decide +kernel
 theorem Montgomery_to_edwards_safe26 : (sig_Montgomery_to_edwards I26).Safe B26 := Sig.safe_of_ok Montgomery_to_edwards_ok26
-theorem Montgomery_elligator_encode_ok26 : (sig_Montgomery_elligator_encode I26).ok B26 = true := by decide +kernel
 theorem Montgomery_elligator_encode_safe26 : (sig_Montgomery_elligator_encode I26).Safe B26 := Sig.safe_of_ok Montgomery_elligator_encode_ok26
-theorem Montgomery_ct_eq_ok26 : (sig_Montgomery_ct_eq I26).ok B26 = true := by decide +kernel
 theorem Montgomery_ct_eq_safe26 : (sig_Montgomery_ct_eq I26).Safe B26 := Sig.safe_of_ok Montgomery_ct_eq_ok26
-theorem Ristretto_decompress_step_2_ok26 : (sig_Ristretto_decompress_step_2 I26).ok B26 = true := by decide +kernel
 theorem Ristretto_decompress_step_2_safe26 : (sig_Ristretto_decompress_step_2 I26).Safe B26 := Sig.safe_of_ok Ristretto_decompress_step_2_ok26
-theorem Ristretto_compress_ok26 : (sig_Ristretto_compress I26).ok B26 = true := by decide +kernel
 theorem Ristretto_compress_safe26 : (sig_Ristretto_compress I26).Safe B26 := Sig.safe_of_ok Ristretto_compress_ok26
-theorem Ristretto_elligator_ristretto_flavor_ok26 : (sig_Ristretto_elligator_ristretto_flavor I26).ok B26 = true := by decide +kernel
 theorem Ristretto_elligator_ristretto_flavor_safe26 : (sig_Ristretto_elligator_ristretto_flavor I26).Safe B26 := Sig.safe_of_ok Ristretto_elligator_ristretto_flavor_ok26
-theorem Ristretto_ct_eq_ok26 : (sig_Ristretto_ct_eq I26).ok B26 = true := by decide +kernel
 theorem Ristretto_ct_eq_safe26 : (sig_Ristretto_ct_eq I26).Safe B26 := Sig.safe_of_ok Ristretto_ct_eq_ok26
-theorem Ristretto_batch_state_from_ok26 : (sig_Ristretto_batch_state_from I26).ok B26 = true := by decide +kernel
 theorem Ristretto_batch_state_from_safe26 : (sig_Ristretto_batch_state_from I26).Safe B26 := Sig.safe_of_ok Ristretto_batch_state_from_ok26
-theorem Ristretto_batch_compress_closure_ok26 : (sig_Ristretto_batch_compress_closure I26).ok B26 = true := by decide +kernel
 theorem Ristretto_batch_compress_closure_safe26 : (sig_Ristretto_batch_compress_closure I26).Safe B26 := Sig.safe_of_ok Ristretto_batch_compress_closure_ok26
-theorem Field_pow22501_ok26 : (sig_Field_pow22501 I26).ok B26 = true := by decide +kernel
 theorem Field_pow22501_safe26 : (sig_Field_pow22501 I26).Safe B26 := Sig.safe_of_ok Field_pow22501_ok26
-theorem Field_pow_p58_ok26 : (sig_Field_pow_p58 I26).ok B26 = true := by decide +kernel
 theorem Field_pow_p58_safe26 : (sig_Field_pow_p58 I26).Safe B26 := Sig.safe_of_ok Field_pow_p58_ok26
-theorem Field_invert_ok26 : (sig_Field_invert I26).ok B26 = true := by decide +kernel
 theorem Field_invert_safe26 : (sig_Field_invert I26).Safe B26 := Sig.safe_of_ok Field_invert_ok26
-theorem Field_sqrt_ratio_i_ok26 : (sig_Field_sqrt_ratio_i I26).ok B26 = true := by decide +kernel
 theorem Field_sqrt_ratio_i_safe26 : (sig_Field_sqrt_ratio_i I26).Safe B26 := Sig.safe_of_ok Field_sqrt_ratio_i_ok26
-theorem Field_invsqrt_ok26 : (sig_Field_invsqrt I26).ok B26 = true := by decide +kernel
 theorem Field_invsqrt_safe26 : (sig_Field_invsqrt I26).Safe B26 := Sig.safe_of_ok Field_invsqrt_ok26
 
 /-- every formula of the table is safe (u32 backend) -/
@@ -601,8 +349,9 @@ theorem all_safe26 : ∀ s ∈ sigs I26, s.Safe B26 := by
   · exact Field_sqrt_ratio_i_safe26
   · exact Field_invsqrt_safe26
 
+/-- every line of the driver's report is `true` -/
 theorem report26_all_ok : (report26).all (fun nb => nb.2) = true := by
-  simp only [report26, reportOf, sigs, List.map_cons, List.map_nil, List.all_cons, List.all_nil, Bool.and_true,
+  simp only [report26, reportOf, sigs, List.map_cons, List.map_nil, List.all_cons, List.all_nil,
     Curve_ProjectivePoint_identity_ok26,
     Curve_ProjectiveNielsPoint_identity_ok26,
     Curve_AffineNielsPoint_identity_ok26,
@@ -664,12 +413,8 @@ def unproved26 : List (String × String) := []
 
 /-- the table `sigs` lists EVERY translated item of the five generated AlgIR modules, in order, with the generated
 program (so a new or renamed item in the Rust source breaks the build until it gets an invariant and a theorem) -/
-theorem sigs_cover (I : Invs) : (sigs I).map (fun s => (s.name, s.F)) =
-    AlgCurve.items.map (fun nf => ("Curve." ++ nf.1, nf.2)) ++
-    AlgEdwards.items.map (fun nf => ("Edwards." ++ nf.1, nf.2)) ++
-    AlgMontgomery.items.map (fun nf => ("Montgomery." ++ nf.1, nf.2)) ++
-    AlgRistretto.items.map (fun nf => ("Ristretto." ++ nf.1, nf.2)) ++
-    AlgField.items.map (fun nf => ("Field." ++ nf.1, nf.2)) := by decide +kernel
+theorem sigs_cover51 : (sigs I51).map (fun s => (s.name, s.F)) = generatedItems := by decide +kernel
+theorem sigs_cover26 : (sigs I26).map (fun s => (s.name, s.F)) = generatedItems := by decide +kernel
 
 /-- the constant tables of the two backends are indexed as the generated `constNames` (the same in all modules) -/
 theorem constNames_ok : AlgCurve.constNames = Dalek.Model.AlgBounds.constNames ∧
@@ -770,11 +515,17 @@ def exampleHistory51 : List Step :=
     .call 30 [4, 5, 6, 7, 0, 1, 2, 3],          -- Edwards.add           -> 8..11
     .call 28 [8, 9, 10, 11],                    -- Edwards.neg           -> 12..15
     .call 20 [12, 13, 14, 15] ] ++              -- Edwards.compress      -> 16 (y), 17 (sign)
-  ((Consts.U64.AFFINE_ODD_MULTIPLES_OF_BASEPOINT.getD 5 []).map (fun l => Step.input l I51.sum)) ++  -- 18..20
+  (List.zipWith Step.input (Consts.U64.AFFINE_ODD_MULTIPLES_OF_BASEPOINT.getD 5 []) (AffineNiels I51)) ++  -- 18..20
   [ .call 14 [12, 13, 14, 15, 18, 19, 20],      -- Curve.add_AffineNielsPoint -> 21..24 (completed)
     .call 10 [21, 22, 23, 24] ]                 -- Curve.CompletedPoint_as_extended -> 25..28
 
-example : (typeHist (sigs I51) exampleHistory51 []).isSome = true := by decide +kernel
+theorem exampleHistory51_typed : typeHist (sigs I51) exampleHistory51 [] =
+    some (EdwardsPoint I51 ++ EdwardsPoint I51 ++ EdwardsPoint I51 ++ EdwardsPoint I51 ++ [I51.fe, inv_choice] ++
+      AffineNiels I51 ++ CompletedPoint I51 ++ EdwardsPoint I51) := by decide +kernel
+
+/-- hence its debug-build execution does not panic -/
+example : (runHistC B51 (sigs I51) exampleHistory51 []).isSome = true := by
+  rw [(no_overflow_all_histories51 _ _ _ [] exampleHistory51_typed trivial).1]; rfl
 
 /-- the checker is not trivially `true`: it REJECTS a doubling whose inputs are unreduced sums on the u32 backend
 (`X + Y` would exceed the `b < 1.75` headroom of `square`), and the u32 `mul` with swapped headroom
